@@ -62,6 +62,13 @@ def classes():
             total = 1 + sum(val(tokval(t)) for t in inputs.values())
             return {next(iter(self.output_ports)): Token(value=total, tag=get_tag(inputs.values()))}
 
+    class HMul(Transformer):
+        async def transform(self, inputs):
+            pr = 1
+            for t in inputs.values():
+                pr *= val(tokval(t))
+            return {next(iter(self.output_ports)): Token(value=pr, tag=get_tag(inputs.values()))}
+
     class HCond(ConditionalStep):
         async def _eval(self, inputs):
             return sum(val(tokval(t)) for t in inputs.values()) % 2 == 0
@@ -103,7 +110,7 @@ def classes():
                                      "ok": out.status == Status.COMPLETED})
             return out
 
-    _CLS.update(HFwd=HFwd, HCond=HCond, HCommand=HCommand, tokval=tokval)
+    _CLS.update(HFwd=HFwd, HMul=HMul, HCond=HCond, HCommand=HCommand, tokval=tokval)
     return _CLS
 
 
@@ -139,8 +146,8 @@ async def build_real(ctx, desc, workdir):
     dconf = None
     for s in desc["steps"]:
         k, name = s["kind"], "/" + s["name"]
-        if k == "fwd":
-            st = wf.create_step(cls=C["HFwd"], name=name)
+        if k in ("fwd", "mul"):
+            st = wf.create_step(cls=C["HFwd" if k == "fwd" else "HMul"], name=name)
             for p in s["ins"]:
                 st.add_input_port(p, port(p))
             st.add_output_port(s["outs"][0], port(s["outs"][0]))
@@ -158,7 +165,7 @@ async def build_real(ctx, desc, workdir):
             st.add_output_port(s["outs"][0], port(s["outs"][0]))
             realnames[s["name"]] = [name]
         elif k == "gather":
-            st = wf.create_step(cls=GatherStep, name=name, size_port=port(s["ins"][1]), depth=1)
+            st = wf.create_step(cls=GatherStep, name=name, size_port=port(s["ins"][1]), depth=s.get("depth", 1))
             st.add_input_port(s["ins"][0], port(s["ins"][0]))
             st.add_output_port(s["outs"][0], port(s["outs"][0]))
             realnames[s["name"]] = [name]
@@ -372,6 +379,16 @@ async def run_once(desc, seed=None, K=3, timeout=60.0, gate=None, keep_db=False,
                 setattr(sq.SqliteDatabase, name, mk(f))
                 undo.append((sq.SqliteDatabase, name, f))
         slow_ids = set()
+        if "__deploy__" in slow_ports:
+            # a deployment that takes a while (as real container/cluster deployments do)
+            import streamflow.deployment.manager as dm
+            orig_deploy = dm.DefaultDeploymentManager.deploy
+
+            async def slow_deploy(self, deployment_config):
+                await asyncio.sleep(0.5)
+                return await orig_deploy(self, deployment_config)
+            dm.DefaultDeploymentManager.deploy = slow_deploy
+            undo.append((dm.DefaultDeploymentManager, "deploy", orig_deploy))
         wf, P, realnames = await build_real(ctx, desc, os.path.join(tmp, "work"))
         slow_ids.update(P[p].persistent_id for p in slow_ports if p in P)
         rec.wrap_step_runs(wf)
